@@ -23,6 +23,7 @@ func main() {
 	dir := fs.String("dir", "/verif/corpus", "scenario: directory of scenario files")
 	only := fs.Int("only", -1, "hist: generate only the history with this index")
 	foc := fs.String("focus", "", "hist: bias of the generator (dry, multi, cooldown, bands, ...)")
+	bin := fs.String("bin", "", "startup: path of the built escalator binary")
 	fs.Parse(os.Args[2:])
 	slowOK = *slow
 	focus = *foc
@@ -64,7 +65,7 @@ func main() {
 		for _, k := range sortedKeys(stats) {
 			fmt.Fprintf(os.Stderr, "%s=%d\n", k, stats[k])
 		}
-	case "arith", "taintops", "filters", "resources", "awsops", "fleetops", "validate", "decode":
+	case "arith", "taintops", "filters", "resources", "awsops", "fleetops", "validate", "decode", "startup":
 		stats := map[string]int{}
 		r := newRng(*seed)
 		switch stream {
@@ -85,6 +86,8 @@ func main() {
 			runValidate(r, *n, w, stats)
 		case "decode":
 			runDecode(w, stats)
+		case "startup":
+			runStartup(r, *n, *bin, w, stats)
 		}
 		for _, k := range sortedKeys(stats) {
 			fmt.Fprintf(os.Stderr, "%s=%d\n", k, stats[k])
